@@ -200,23 +200,36 @@ func c04CheckProg(r *vlib.Run, blob []byte, w *c01World, std *c01World, note str
 		if !clean3 {
 			continue
 		}
-		ref := c01RunRef(prog, std, g, refpvm.Options{}, c04MaxSteps+2)
-		if !ref.done || ref.unpinned {
-			continue
-		}
 		imOOG := false
 		if t, ok := res.ReasonOrBytes.(ExitReasonType); ok && t == OUT_OF_GAS {
 			imOOG = true
 		}
-		refOOG := ref.exit.Kind == refpvm.OOG
-		kind := ""
-		switch {
-		case refOOG && !imOOG:
-			kind = "oog-missing"
-		case !refOOG && imOOG:
-			kind = "oog-spurious"
-		case used != g-ref.m.Gas:
-			kind = "used-wrong"
+		judge := func(opt refpvm.Options) (string, c01Ref, bool) {
+			ref := c01RunRef(prog, std, g, opt, c04MaxSteps+2)
+			if !ref.done || ref.unpinned {
+				return "", ref, false
+			}
+			refOOG := ref.exit.Kind == refpvm.OOG
+			switch {
+			case refOOG && !imOOG:
+				return "oog-missing", ref, true
+			case !refOOG && imOOG:
+				return "oog-spurious", ref, true
+			case used != g-ref.m.Gas:
+				return "used-wrong", ref, true
+			}
+			return "", ref, true
+		}
+		kind, ref, judged := judge(refpvm.Options{})
+		if !judged {
+			continue
+		}
+		if kind != "" && ref.m.SawK0 {
+			// second accepted reading for an instruction fetched where the bitmask bit is 0
+			if k2, _, ok2 := judge(refpvm.Options{K0Trap: true}); ok2 && k2 == "" {
+				kind = ""
+			}
+			ref = c01RunRef(prog, std, g, refpvm.Options{}, c04MaxSteps+2) // restore the literal run for the key
 		}
 		if kind == "" {
 			continue
